@@ -146,7 +146,9 @@ Definition parseNameString (r : reader) : outcome (slice * bool * reader) :=
   do '(nx, r2) <- readByte r1;
   let next := match nx with Some b => b | None => 0 end in  (* "this call to read will never error" *)
   let finish (start : N) (r' : reader) := Ok (mkSlice ptr (w32 (r_offset r' + two32 - start)), true, r') in
-  if next =? 0 then finish (r_offset r2) r2
+  if next =? 0 then
+    (* the terminator is dropped, root / parent prefixes are kept (commit 74af16c) *)
+    Ok (mkSlice ptr (w32 (r_offset r2 + two32 - 1 - startOffset)), true, r2)
   else if next =? 0x2e then
     let endOffset := w32 (r_offset r2 + w32 (aml_amlNameLen * 2)) in
     if r_pkgEnd r2 <? endOffset then Ok (nil_slice, false, r2)
@@ -158,7 +160,7 @@ Definition parseNameString (r : reader) : outcome (slice * bool * reader) :=
     | Some segCount =>
         if segCount =? 0 then Ok (nil_slice, false, r3) else
         (* uint32(amlNameLen*segCount): the product is computed in uint8 *)
-        let endOffset := w32 (r_offset r3 + w8 (aml_amlNameLen * segCount)) in
+        let endOffset := w32 (r_offset r3 + w8 (segCount * aml_amlNameLen)) in
         if r_pkgEnd r3 <? endOffset then Ok (nil_slice, false, r3)
         else finish startOffset (setOffset r3 endOffset)
     end
